@@ -27,6 +27,7 @@ class FrameParser(Parser):
         self.parse_headers = parse_headers
         self.validate = validate
         self._is_text = False
+        self._is_compressed = False
         self._utf8_validator = Utf8Validator()
         self._frame_class = Frame
         self._compression = False
@@ -46,7 +47,7 @@ class FrameParser(Parser):
 
     def read_text(self, length):
         """Read encoded text."""
-        if self._compression:
+        if self._compression and self._is_compressed:
             return self.read(length)
         else:
             return self.read_utf8(length, self._utf8_validator)
@@ -96,6 +97,7 @@ class FrameParser(Parser):
 
             if frame.is_text:
                 self._is_text = True
+                self._is_compressed = bool(frame.rsv1)
 
             if payload_length:
                 _is_text_continuation = (
@@ -112,7 +114,7 @@ class FrameParser(Parser):
     def on_frame(self, frame):
         """Called with new frames."""
         if (
-            not self._compression
+            not (self._compression and self._is_compressed)
             and frame.fin
             and (frame.is_text or frame.is_continuation)
         ):
